@@ -653,3 +653,6 @@ impl<K: Hash + Eq, V, FH: BuildHasher, RH: BuildHasher> Cache<K, V>
         self.protected.is_empty() && self.probationary.is_empty()
     }
 }
+
+#[cfg(feature = "verif-hooks")]
+mod verif;
